@@ -1,6 +1,8 @@
 package main
 
 import (
+	"io"
+	"encoding/json"
 	"bytes"
 	"encoding/xml"
 	"fmt"
@@ -163,7 +165,8 @@ func genCliTree(r *Rng, root string, nfiles int) []cliFile {
 	used := map[string]bool{}
 	for i := 0; i < nfiles; i++ {
 		ext := pick(r, exts)
-		name := fmt.Sprintf("%s%d%s", pick(r, []string{"f", "a", "z", "doc"}), r.Intn(30), ext)
+		// names the shell, printf-style formatting or a path splitter could trip over
+		name := fmt.Sprintf("%s%d%s", pick(r, []string{"f", "a", "z", "doc", "f", "a", "50%off", "a b", "%s%d", "x:y"}), r.Intn(30), ext)
 		rel := filepath.Join(pick(r, dirs), name)
 		if used[rel] {
 			continue
@@ -254,6 +257,18 @@ func parseLikeCli(path string, data []byte, run *cliRun) (store.Cursor, bool) {
 		c, err = xsel.ReadHtml(bytes.NewReader(data))
 	case "json":
 		c, err = xsel.ReadJson(bytes.NewReader(data))
+		// "unparsable inputs produce a diagnostic": whether a file IS JSON is decided by encoding/json, independently
+		// of the library's adapter (which must reject what is not one JSON value)
+		// (a stream of zero or more values, which is what the adapter documents)
+		dec := json.NewDecoder(bytes.NewReader(data))
+		for {
+			var v any
+			if derr := dec.Decode(&v); derr == io.EOF {
+				break
+			} else if derr != nil {
+				return nil, false
+			}
+		}
 	}
 	if err != nil || c == nil {
 		return nil, false
